@@ -24,6 +24,7 @@ var (
 	seq    uint64
 	events []Event
 	gates  = map[string]chan struct{}{} // label -> channel closed on release
+	ones   = map[string]chan struct{}{} // label -> tokens, each letting exactly one parked goroutine go
 	held   = map[string]int{}           // label -> number of goroutines currently parked
 	cond   = sync.NewCond(&mu)
 	ids    = map[interface{}]uint64{}
@@ -62,13 +63,20 @@ func Point(label string, args ...uint64) {
 	seq++
 	events = append(events, Event{seq, g0, label, append([]uint64(nil), args...)})
 	g := gates[label]
+	one := ones[label]
 	if g != nil {
 		held[label]++
 	}
 	cond.Broadcast()
 	mu.Unlock()
 	if g != nil {
-		<-g
+		select {
+		case <-g:
+		case <-one:
+			mu.Lock()
+			held[label]--
+			mu.Unlock()
+		}
 	}
 }
 
@@ -77,8 +85,19 @@ func Hold(label string) {
 	mu.Lock()
 	if gates[label] == nil {
 		gates[label] = make(chan struct{})
+		ones[label] = make(chan struct{}, 1024)
 	}
 	mu.Unlock()
+}
+
+// ReleaseOne lets exactly one goroutine parked (now or later) at label go; the gate stays held.
+func ReleaseOne(label string) {
+	mu.Lock()
+	one := ones[label]
+	mu.Unlock()
+	if one != nil {
+		one <- struct{}{}
+	}
 }
 
 // Release lets parked goroutines go and removes the gate.
